@@ -174,6 +174,58 @@ CHECKS.update({
         technique="TLA+ codec round-trip properties checked with TLC + TLC validation of the real codecs' outputs"),
 })
 
+CHECKS.update({
+    "C02": dict(
+        level="model_checking", design="6/C02",
+        text="MC_Sched.tla: node tasks of a level and of different solutions start and finish in every order, results are "
+             "folded per level in index order - TLC checks that every interleaving ends in the sequential result "
+             "(Confluent, CachesPrivate); MC_VmExec.tla does the same for compute children. On the real code every case "
+             "of the schedule drivers (wide levels, several solutions, Compute blocks, data outputs, failures) runs under "
+             "rayon pools of 1..16 threads with tasks held up inside their state reads so that they finish in reverse "
+             "index order or random order; every run is validated against the deterministic specification and all runs of "
+             "a case are compared (verdict, indices, gas, mutations in order, machine states).",
+        note="real schedules are perturbed and sampled, not enumerated; exhaustive only on the specification.",
+        technique="TLA+ interleaving models checked with TLC + TLC trace validation of runs under varied pools and forced completion orders"),
+    "C11": dict(
+        level="model_checking", design="6/C11",
+        text="MC_KeyRange.tla: the operational key-range op against the documented contract (exact request to the right "
+             "view / contract, [address, length] pairs then values back to back, nothing else changes, memory never grows, "
+             "operands consumed exactly, misfits and invalid operands are errors) for 230k combinations; the stateread "
+             "driver runs the 4 real ops on the same combinations and on random larger requests against scripted recording "
+             "pre / post views with different contents; request, memory, stack and error are validated by TraceVm.",
+        note="memory after a failing read is not compared.",
+        technique="TLA+ op contract model-checked with TLC + " + TRACEVM),
+    "C12": dict(
+        level="model_checking", design="6/C12",
+        text="MC_Access.tla: PredicateData/Len/Slots and the address ops against their documentation for all (slot, index, "
+             "length) in (-1..4)^3, the byte-length rule of pop_bytes for lengths 0..17, injectivity of the PredicateExists "
+             "pre-image. Oracle evaluation: for Sha256 (all lengths 0..40), VerifyEd25519, RecoverSecp256k1 and "
+             "PredicateExists TLC derives from Crypto.tla the bytes that must reach the primitive; the harness applies sha2 / "
+             "ed25519-dalek / essential_sign::recover_hash + encode::public_key to exactly those bytes and compares with the "
+             "stack the real VM produced (incl. five zero words for well-formed unrecoverable signatures, errors for bad ids).",
+        note="SHA-256, Ed25519, secp256k1 are trusted third-party primitives.",
+        technique="TLA+ marshalling spec: TLC-derived primitive inputs replayed against the real VM and the hash/sign crates + " + TRACEVM),
+    "C19": dict(
+        level="model_checking", design="6/C19",
+        text="MC_Signing.tla (symbolic Sign/Recover over the contract digest = multiset of predicates + salt): SignRecover "
+             "for every order, TamperDetected, OtherSigner, MalformedIsError; MC_Encodings.tla gives injectivity of the signed "
+             "pre-image. With real seeded keys: unchanged / permuted contracts recover the signer and verify; every tampering "
+             "of salt, node address, edge_start, edges, predicates, signature bytes, recovery id, and another signer never "
+             "recover the signer; malformed input is an error, never a panic; key / signature word layouts are Crypto.tla's "
+             "and the VM's RecoverSecp256k1 returns encode::public_key on encode::signature words.",
+        note="unforgeability of ECDSA is an assumption of the symbolic model.",
+        technique="TLA+ symbolic signature model checked with TLC + TLC validation of real-key sign/recover/tamper outcomes"),
+    "C20": dict(
+        level="model_checking", design="6/C20",
+        text="Lock.tla: 3 threads x 2 calls x 2 locks, all interleavings: MutualExclusion, NoLostUpdate, FinalCount, "
+             "EveryCallReturns (liveness, weak fairness); the Exclusive = FALSE deviation violates MutualExclusion (non-"
+             "vacuity). The real StdLock is driven by 2..16 threads x up to 2000 read-modify-write closures of varying "
+             "duration on 1-3 locks; events sequenced inside the closure are validated by TraceLock (Enter only when free, "
+             "Read of the model's value, Return of the closure's own value, final value = number of closures, all threads join).",
+        note="real schedules are sampled; exhaustive only on the model.",
+        technique="TLA+ lock model checked with TLC (safety + liveness) + TLC trace validation of contended runs"),
+})
+
 NOT_YET = {
 }
 
